@@ -9,6 +9,7 @@ import (
 	"time"
 
 	"github.com/douban/gobeansdb/cmem"
+	"github.com/douban/gobeansdb/utils"
 )
 
 const (
@@ -72,10 +73,12 @@ func (ds *dataStore) AppendRecord(rec *Record) (pos Position, err error) {
 	ds.Lock()
 	size := rec.Payload.RecSize
 	currOffset := ds.chunks[ds.newHead].writingHead
+	verifRotated := false
 	if currOffset+size > uint32(Conf.DataFileMax) {
 		ds.newHead++
 		logger.Infof("rotate to %d, size %d, new rec size %d", ds.newHead, currOffset, size)
 		currOffset = 0
+		verifRotated = true
 		go ds.flush(ds.newHead-1, true)
 	}
 	pos.ChunkID = ds.newHead
@@ -92,16 +95,27 @@ func (ds *dataStore) AppendRecord(rec *Record) (pos Position, err error) {
 	if cmem.DBRL.FlushData.Size > int64(Conf.FlushWake) {
 		WakeupFlush()
 	}
+	if utils.VerifOn {
+		utils.Verif("w.append", ds.bucketID, string(rec.Key), pos.ChunkID, pos.Offset, size, verifRotated, rec.Payload.Ver, rec.Payload.Flag)
+	}
 	ds.Unlock()
 	return
 }
 
 func (ds *dataStore) flush(chunk int, force bool) error {
+	if utils.VerifOn {
+		utils.Verif("f.enter", ds.bucketID, chunk, force)
+		defer utils.Verif("f.exit", ds.bucketID, chunk)
+	}
 	if ds.wbufSize == 0 {
 		return nil
 	}
 	ds.flushLock.Lock()
 	defer ds.flushLock.Unlock()
+	if utils.VerifOn {
+		utils.Verif("f.lock", ds.bucketID, chunk)
+		defer utils.Verif("f.unlock", ds.bucketID, chunk)
+	}
 	ds.Lock()
 	if ds.wbufSize == 0 {
 		ds.Unlock()
@@ -117,6 +131,9 @@ func (ds *dataStore) flush(chunk int, force bool) error {
 		chunk = ds.newHead
 	}
 	ds.lastFlushTime = time.Now()
+	if utils.VerifOn {
+		utils.Verif("f.begin", ds.bucketID, chunk)
+	}
 	ds.Unlock()
 	// logger.Infof("flushing %d records to data %d", n, chunk)
 
